@@ -164,7 +164,14 @@ def shard_small(spec, R):
             da = xr.DataArray(pf, dims=["time", "y", "x"], coords={"time": pd.date_range("2000-01-01", periods=t)}, attrs={"nodata": nodata})
             zd = xr.DataArray(zones, dims=["y", "x"], attrs={"nodata": z_nodata})
             ids = list(range(nz))
-            r = da.hdc.zonal.mean(zd, ids, dtype=np.dtype(odt).name, dim_name="zz")
+            # the cube / the zones may be stored in another dimension order: pixels and zones are matched by name
+            order = [("time", "y", "x"), ("y", "x", "time"), ("x", "time", "y"), ("time", "x", "y")][(it // 2) % 4]
+            zorder = [("y", "x"), ("x", "y")][(it // 8) % 2]
+            R.count(f"accessor_order_{'_'.join(order)}")
+            da_o = da.transpose(*order)
+            if (it // 16) % 2:
+                da_o = da_o.copy(data=np.ascontiguousarray(da_o.values))  # really stored that way, not a view
+            r = da_o.hdc.zonal.mean(zd.transpose(*zorder), ids, dtype=np.dtype(odt).name, dim_name="zz")
             R.count("accessor_calls")
             ok_meta = r.dims == ("time", "zz", "stat") and list(r.stat.values) == ["mean", "valid"] and list(r.zz.values) == ids and r.attrs.get("nodata") == nodata
             if not ok_meta:
